@@ -961,7 +961,7 @@ func c23NewCoalescer(rt *rapid.T) (*MultiCoalescer, *c23Writer, string) {
 }
 
 func TestC23_Transparent(t *testing.T) {
-	vk.Check(t, 2500, func(rt *rapid.T) {
+	vk.Check(t, 2000, func(rt *rapid.T) {
 		m, w, caps := c23NewCoalescer(rt)
 		mode := rapid.IntRange(0, 13).Draw(rt, "mode")
 		bulk, mono := mode <= 2, mode == 0 // bulk: 1-3 run-heavy flows; mono: uninterrupted runs
